@@ -37,6 +37,8 @@ struct Hist {
   bool nnc;
   dimension_type maxdim;
   bool big;
+  bool observe_always = false;
+  int last_slot = -1, last_arg = -1;
   std::set<std::string> status_seen;
   Hist(uint64_t seed) : r(seed) {}
 
@@ -45,7 +47,19 @@ struct Hist {
   int pick_compatible(int s) {
     int c[4], k = 0;
     for (int i = 0; i < 4; ++i) if (slot[i].live() && dim(i) == dim(s)) c[k++] = i;
-    return c[r.below(k)];
+    last_arg = c[r.below(k)];
+    return last_arg;
+  }
+  // C02: result and (unchanged) argument observed through both descriptions right after the operator
+  void observe_full(int s) {
+    if (s < 0 || !slot[s].live()) return;
+    bool on_copy = r.chance(1, 2);
+    std::unique_ptr<Polyhedron> cp;
+    const Polyhedron* q = slot[s].p.get();
+    if (on_copy) { cp.reset(clone(*slot[s].p)); q = cp.get(); }
+    observe_sys(s, *q, r.below(2));
+    observe_sys(s, *q, 2 + r.below(2));
+    status_line(s);
   }
   void status_line(int s) {
     OS o; slot[s].p->ascii_dump(o);
@@ -69,7 +83,7 @@ struct Hist {
   void query(int s, const Polyhedron& q) {
     OS o; dimension_type n = q.space_dimension();
     o << "q " << s << " ";
-    switch (r.below(16)) {
+    switch (r.below(18)) {
       case 0: o << "is_empty " << q.is_empty(); break;
       case 1: o << "is_universe " << q.is_universe(); break;
       case 2: o << "is_bounded " << q.is_bounded(); break;
@@ -92,6 +106,15 @@ struct Hist {
         Generator g = rnd_gen(r, n, nnc, false);
         Poly_Gen_Relation rel = q.relation_with(g);
         o << "relgen"; put_gen(o, g, n); o << " " << rel.implies(Poly_Gen_Relation::subsumes());
+        break; }
+      case 16: case 17: {
+        Linear_Expression e = rnd_expr(r, n, 3, false);
+        Coefficient m = r.chance(1, 6) ? 0 : r.range(1, 4);
+        Congruence cg = (e %= 0) / m;
+        Poly_Con_Relation rel = q.relation_with(cg);
+        o << "relcg " << cg.modulus(); put_expr(o, e, n);
+        o << " " << rel.implies(Poly_Con_Relation::is_disjoint()) << " " << rel.implies(Poly_Con_Relation::strictly_intersects())
+          << " " << rel.implies(Poly_Con_Relation::is_included()) << " " << rel.implies(Poly_Con_Relation::saturates());
         break; }
       case 13: { Linear_Expression e = rnd_expr(r, n, 3, false);
         bool up = r.chance(1, 2);
@@ -157,6 +180,7 @@ struct Hist {
   // one mutator; returns false if nothing was done
   void mutate(bool c02) {
     int s = pick_live();
+    last_slot = s; last_arg = -1;
     Polyhedron& P = *slot[s].p;
     dimension_type n = P.space_dimension();
     OS o;
@@ -304,12 +328,14 @@ int main(int argc, char** argv) {
       H.nnc = H.r.chance(1, 2); g_nnc = H.nnc;
       H.maxdim = (dimension_type)maxdim;
       H.big = H.r.chance(1, 20);
+      H.observe_always = pplv::arg_long(argc, argv, "--observe-always", 0) != 0;
       dimension_type n = H.r.below((unsigned)std::min(maxdim, 3L) + 1);
       { OS o; o << "hist " << h << " " << seed; J.line(o.str()); }
       H.create(0, n); H.create(1, n);
       if (H.r.chance(1, 2)) H.create(2, n);
       for (long i = 0; i < len; ++i) {
         H.mutate(c02);
+        if (H.observe_always) { int a = H.last_arg, b = H.last_slot; H.observe_full(b); if (a != b) H.observe_full(a); }
         if (H.r.chance(3, 5)) { int s = H.pick_live(); H.observe(s); }
       }
       for (int s = 0; s < 4; ++s) if (H.slot[s].live()) H.observe(s);
